@@ -11,7 +11,7 @@ VARIANTS = [
     V('C06', 'data flags wrong', 'dimsemessages.py', "gen = fragment(self.data_set, max_pdu_length, 0, 2)", "gen = fragment(self.data_set, max_pdu_length, 1, 2)", rule='C06.S4'),
     V('C06', 'constant context id', 'dimsemessages.py', "pdu.PresentationDataValueItem(pc_id, struct.pack('b', bit) + item)\n            yield pdu.PDataTfPDU([value_item])\n\n", "pdu.PresentationDataValueItem(1, struct.pack('b', bit) + item)\n            yield pdu.PDataTfPDU([value_item])\n\n", rule='C06.S5'),
     V('C06', 'file: no push back', 'dimsemessages.py', "        if has_next:\n            fp.seek(-1, 1)\n", "        if has_next:\n            pass\n", rule='C06.S3'),
-    V('C06', 'flag mapping inverted', 'dimsemessages.py', "        yield chunk, normal if has_next else last\n\n\ndef fragment_file", "        yield chunk, last if has_next else normal\n\n\ndef fragment_file", rule='C06.S4'),
+    V('C06', 'flag mapping inverted', 'dimsemessages.py', "        yield chunk, normal if has_next else last\n\n\ndef fragment_file", "        yield chunk, last if has_next else normal\n\n\ndef fragment_file", rule='C06.S3'),
     V('C06', 'send passes ae limit', 'asceprovider.py', "dimse_msg.encode(pc_id, self.max_pdu_length)", "dimse_msg.encode(pc_id, self.ae.max_pdu_length)", rule='C06.S7'),
     V('C06', 'silent: x < y -> y > x', 'dimsemessages.py', "(pos + size < length)", "(length > pos + size)", expect='silent'),
     V('C06', 'silent: rename local', 'dimsemessages.py', "    maxsize = (max_pdu_length or NO_LIMIT_PDU_LENGTH) - 6\n    for chunk, has_next in chunks(data_set, maxsize):", "    width = (max_pdu_length or NO_LIMIT_PDU_LENGTH) - 6\n    for chunk, has_next in chunks(data_set, width):", expect='silent'),
